@@ -14,6 +14,9 @@ from oracle import tsref
 
 PRECISIONS = ["any", "second", "millisecond"]
 CONSTRAINTS = ["exact", "min"]
+# wall-clock times that occur twice in their zone: (year, month, day, hour, minute, zone)
+AMBIGUOUS = [(2020, 11, 1, 1, 30, "America/New_York"), (2021, 10, 31, 2, 30, "Europe/Berlin"), (2021, 4, 4, 1, 45, "Australia/Lord_Howe"),
+             (2019, 11, 3, 1, 0, "America/Chicago"), (2022, 10, 30, 1, 59, "Europe/London"), (2020, 6, 15, 12, 0, "America/New_York")]
 ZONES = ["America/New_York", "Asia/Kolkata", "Australia/Lord_Howe", "Europe/London", "Pacific/Kiritimati", "Pacific/Apia"]
 
 # (label, version, class name, base kwargs, property, precision, constraint) -- the precision each slot is
@@ -66,6 +69,20 @@ def build_input(case):
         off = tz * 60
     elif tz == "pytz-utc":
         val, off = pytz.utc.localize(naive), 0
+    elif "offset_us" in tz:
+        # UTC offsets with a sub-minute / sub-second part are legal for datetime.timezone
+        val = naive.replace(tzinfo=dt.timezone(dt.timedelta(microseconds=tz["offset_us"])))
+        t = tsref.instant(y, mo, d, h, mi, s, us) - tz["offset_us"]
+        return (val, t) if tsref.in_range(t) else (None, None)
+    elif "zoneinfo" in tz:
+        # standard-library zones; a wall-clock time that occurs twice (end of daylight saving time) is told apart by `fold` (PEP 495)
+        from zoneinfo import ZoneInfo
+        zy, zmo, zd, zh, zmi, zone = AMBIGUOUS[tz["zoneinfo"] % len(AMBIGUOUS)]
+        naive = dt.datetime(zy, zmo, zd, zh, zmi, s, us)
+        val = naive.replace(tzinfo=ZoneInfo(zone), fold=tz["fold"])
+        off = val.utcoffset()
+        t = tsref.instant(zy, zmo, zd, zh, zmi, s, us) - (off.days * 86400 + off.seconds) * 10 ** 6 - off.microseconds
+        return val, t
     else:
         try:
             val = pytz.timezone(tz["zone"]).localize(naive, is_dst=bool(tz.get("dst")))
@@ -193,7 +210,10 @@ micro = st.one_of(
     st.sampled_from([999999, 999000, 1, 10, 100, 1000, 10000, 100000, 120000, 123000, 123400, 123450, 123456, 500000, 999, 999499, 999500, 999999, 1999, 499999]),
 )
 offset = st.one_of(st.none(), st.just("pytz-utc"), st.integers(-14 * 60, 14 * 60), st.sampled_from([0, 330, 345, -210, 765, 840, -720, 1, -1]),
-                   st.builds(lambda z, d: {"zone": z, "dst": d}, st.sampled_from(ZONES), st.booleans()))
+                   st.builds(lambda z, d: {"zone": z, "dst": d}, st.sampled_from(ZONES), st.booleans()),
+                   st.builds(lambda n: {"offset_us": n}, st.one_of(st.sampled_from([500, -900, 1500000, -500000, 999999, -1, 1, 86399999999, -86399999999, 3600000001]),
+                                                                   st.integers(-86399999999, 86399999999))),
+                   st.builds(lambda i, f: {"zoneinfo": i, "fold": f}, st.integers(0, len(AMBIGUOUS) - 1), st.integers(0, 1)))
 
 
 @st.composite
@@ -280,7 +300,8 @@ def classes_of(c):
     else:
         cl.append("us:millis")
     tz = c.get("tz")
-    cl.append("tz:" + ("naive" if tz is None else "zone" if isinstance(tz, dict) else "utc" if tz in (0, "pytz-utc") else "offset"))
+    cl.append("tz:" + ("naive" if tz is None else "sub-second-offset" if isinstance(tz, dict) and "offset_us" in tz else
+                       "zoneinfo-fold=%d" % tz["fold"] if isinstance(tz, dict) and "zoneinfo" in tz else "zone" if isinstance(tz, dict) else "utc" if tz in (0, "pytz-utc") else "offset"))
     if c.get("stixdt_tags"):
         cl.append("stixdt-tagged:%s/%s" % tuple(c["stixdt_tags"]))
     return cl
@@ -288,11 +309,11 @@ def classes_of(c):
 
 def nontrivial(c):
     cl = classes_of(c)
-    return any(x in cl for x in ("year<1000", "us:sub-millisecond", "us:trailing-zero", "tz:offset", "tz:zone"))
+    return any(x in cl for x in ("year<1000", "us:sub-millisecond", "us:trailing-zero", "tz:offset", "tz:zone", "tz:sub-second-offset", "tz:zoneinfo-fold=0", "tz:zoneinfo-fold=1"))
 
 
 def run(ctx):
-    ctx.rule = ("datetimes (naive / fixed offsets -14h..+14h / pytz zones), dates, STIXdatetime, plain datetimes and accepted strings "
+    ctx.rule = ("datetimes (naive / fixed offsets -14h..+14h / offsets with a sub-second part / pytz zones / zoneinfo zones at wall-clock times that occur twice, fold 0 and 1), dates, STIXdatetime, plain datetimes and accepted strings "
                 "with 0-6 fraction digits; years 1-9999 weighted below 1000; microsecond classes; x 3 precisions x 2 constraints, "
                 "through utils.format_datetime(parse_into_datetime()) and through 12 TimestampProperty slots of real types; plus "
                 "ordered pairs 1us..1y apart. Non-trivial = sub-millisecond or trailing-zero microseconds, non-UTC offset/zone, or "
